@@ -71,15 +71,115 @@ thread_local! {
     static CURRENT: Cell<(*const (), Option<fn(*const ()) -> String>)> = const { Cell::new((std::ptr::null(), None)) };
 }
 
-/// Register the case being executed on this thread (cheap: two words).
+const SLOTS: usize = 256;
+#[allow(clippy::declare_interior_mutable_const)]
+const ZERO: AtomicUsize = AtomicUsize::new(0);
+/// per worker thread: number of cases started, pointer and renderer of the case in progress
+static BEAT: [AtomicUsize; SLOTS] = [ZERO; SLOTS];
+static CASE_PTR: [AtomicUsize; SLOTS] = [ZERO; SLOTS];
+static CASE_FN: [AtomicUsize; SLOTS] = [ZERO; SLOTS];
+static NEXT_SLOT: AtomicUsize = AtomicUsize::new(0);
+
+use std::sync::atomic::{AtomicUsize, Ordering};
+
+thread_local! {
+    static SLOT: usize = NEXT_SLOT.fetch_add(1, Ordering::Relaxed) % SLOTS;
+}
+
+/// Register the case being executed on this thread (cheap: a few relaxed stores).
 #[inline]
 pub fn set_current(ptr: *const (), render: fn(*const ()) -> String) {
     CURRENT.with(|c| c.set((ptr, Some(render))));
+    SLOT.with(|s| {
+        CASE_FN[*s].store(render as usize, Ordering::Relaxed);
+        CASE_PTR[*s].store(ptr as usize, Ordering::Relaxed);
+        BEAT[*s].fetch_add(1, Ordering::Relaxed);
+    });
 }
 
 #[inline]
 pub fn clear_current() {
     CURRENT.with(|c| c.set((std::ptr::null(), None)));
+    SLOT.with(|s| {
+        CASE_PTR[*s].store(0, Ordering::Relaxed);
+        BEAT[*s].fetch_add(1, Ordering::Relaxed);
+    });
+}
+
+/// description of a direct API call (not a driver history) for the watchdog / fault handler
+pub struct Desc {
+    pub what: &'static str,
+    pub encoding: &'static str,
+    pub data: *const u8,
+    pub len: usize,
+}
+
+fn render_desc(p: *const ()) -> String {
+    let d = unsafe { &*(p as *const Desc) };
+    let bytes = unsafe { std::slice::from_raw_parts(d.data, d.len.min(4096)) };
+    format!("{{\"kind\": \"direct-call\", \"what\": \"{}\", \"encoding\": \"{}\", \"input_hex\": \"{}\"}}", d.what, d.encoding, crate::fw::hex(bytes))
+}
+
+/// RAII registration of a direct call
+pub struct DescGuard;
+
+impl Drop for DescGuard {
+    fn drop(&mut self) {
+        clear_current();
+    }
+}
+
+pub fn enter(d: &Desc) -> DescGuard {
+    set_current(d as *const Desc as *const (), render_desc);
+    DescGuard
+}
+
+fn rss_bytes() -> usize {
+    std::fs::read_to_string("/proc/self/statm").ok().and_then(|t| t.split_whitespace().nth(1).and_then(|x| x.parse::<usize>().ok())).map(|pages| pages * 4096).unwrap_or(0)
+}
+
+/// Watchdog: a single case (one history / one call of the crate) that runs for more than
+/// `stuck_secs`, or a process that grows beyond `max_rss`, ends the check as INCONCLUSIVE
+/// (exit 2, never a verdict) with the case printed, instead of hanging until the wrapper's
+/// time-out or exhausting the machine's memory.
+pub fn start_watchdog(stuck_secs: u64, max_rss: usize) {
+    std::thread::spawn(move || {
+        let mut last = vec![(0usize, 0u64); SLOTS];
+        let mut tick = 0u64;
+        loop {
+            std::thread::sleep(std::time::Duration::from_millis(500));
+            tick += 1;
+            let rss = rss_bytes();
+            let mut stuck: Option<usize> = None;
+            for i in 0..SLOTS {
+                let b = BEAT[i].load(Ordering::Relaxed);
+                if b != last[i].0 {
+                    last[i] = (b, tick);
+                } else if CASE_PTR[i].load(Ordering::Relaxed) != 0 && (tick - last[i].1) / 2 >= stuck_secs {
+                    stuck = Some(i);
+                }
+            }
+            let over = max_rss != 0 && rss > max_rss;
+            if stuck.is_some() || over {
+                let mut case = String::from("(unknown)");
+                let i = stuck.or_else(|| (0..SLOTS).find(|i| CASE_PTR[*i].load(Ordering::Relaxed) != 0));
+                if let Some(i) = i {
+                    let p = CASE_PTR[i].load(Ordering::Relaxed);
+                    let f = CASE_FN[i].load(Ordering::Relaxed);
+                    if p != 0 && f != 0 {
+                        let f: fn(*const ()) -> String = unsafe { std::mem::transmute(f) };
+                        case = f(p as *const ());
+                    }
+                }
+                if over {
+                    println!("check: watchdog: the check process grew to {} MiB (inconclusive, not a verdict); a case in progress: {}", rss >> 20, case.chars().take(1500).collect::<String>());
+                } else {
+                    println!("check: watchdog: a single case has been running for more than {} s - a call into the crate does not return (inconclusive, not a verdict); case: {}", stuck_secs, case.chars().take(1500).collect::<String>());
+                }
+                unsafe { libc::_exit(2) };
+            }
+        }
+    });
 }
 
 static mut PROP: [u8; 8] = [0; 8];
